@@ -93,7 +93,7 @@ PROVED = {
  'C08': ('the port builders MemBlock._build_read_port and MemBlock._assignment (one well-formed m / @ net per port: memid = id, geometry, zero-extension, enable default 1, refusals) and MemBlock._make_copy / RomBlock._make_copy are also under contract; ', None),
  'C09': ('P: contracts on every rewrite rule of nand_synth / and_inverter_synth (one-bit wires: new logic computes the documented value using only the target gates; kept ops return truthy), discharged by z3; then ',
          'per-op rewrite rules proved (P); pass-level equivalence and structural postconditions bounded per design (PB)'),
- 'C10': ('P: contract Block.sanity_check_net accepts exactly WF_net (DESIGN A.2) - 7465 obligations over (op, arity 0..4, 0..2 destinations, parameter shape) cases with symbolic bitwidths / wire kinds, discharged by z3; then ',
+ 'C10': ('P: contract Block.sanity_check_net accepts exactly WF_net (DESIGN A.2) - 7465 obligations over (op, arity 0..4, 0..2 destinations, parameter shape) cases with symbolic bitwidths / wire kinds, and contract on Block.__iter__ over a symbolic netlist of any size and every tie-break of its worklist (sets as membership arrays, `pop` = arbitrary member; while-loop + inner-loop invariants): every yielded net has all argument wires produced by earlier yielded nets or sources, and on completion every net was yielded (partial correctness; PyrtlError permitted) - 140 obligations, discharged by z3; then ',
          'per-net rule list proved equivalent to WF_net for all bitwidths (P) within the stated arities; block-level faults and iteration schedules by fault enumeration (B)'),
  'C11': ('P: attribute-preservation contracts on clone_wire, MemBlock._make_copy, RomBlock._make_copy discharged by z3; then ',
          'copy primitives proved attribute-preserving (P); frame and behaviour bounded (PB/B)'),
